@@ -115,6 +115,10 @@ def random_case(draw, tier, modes=("frac", "frac", "whole-interval", "to-measure
     # TimingMap.reseat() goes through milliseconds and re-derives positions with the snapper (grid 1/1..1/96 beat):
     # positions finer than that grid (the slivers) are only meaningful for the two entry points that take positions
     entry = draw(st.sampled_from(["list", "from", "reseat"] if "sliver" not in MODES else ["list", "from"]))
+    # the rows after the first may be handed over in any order (the re-seater sorts by position itself)
+    order = draw(st.sampled_from([None, None, None, "reverse-tail", "rotate-tail"]))
+    if order:
+        return dict(init=init, entry=entry, order=order, changes=[[b, frs(p)] for b, p in zip(bp, pos)])
     return dict(init=init, entry=entry, changes=[[b, frs(p)] for b, p in zip(bp, pos)])
 
 
@@ -145,6 +149,10 @@ def check(case, ctx):
     ctx.label("sliver-past-beat-line(F26 class)", _first_beat_sliver(case) is not None)
 
     L = [BpmChangeSnap(b, m, Snap(me, be, m)) for b, m, me, be in inp]
+    if case.get("order") and len(L) > 2 and not ties:
+        tail = L[1:]
+        L = [L[0]] + (tail[::-1] if case["order"] == "reverse-tail" else tail[len(tail) // 2:] + tail[: len(tail) // 2])
+        ctx.label("rows-handed-over-out-of-order")
     if entry == "list":
         R = ctx.call("reseat_bpm_changes_snap", TimingMap.reseat_bpm_changes_snap, L)
         out = [(float(r.bpm), r.metronome, r.snap.measure, r.snap.beat) for r in R]
